@@ -27,8 +27,9 @@ type failingIssuer struct {
 	id []byte
 }
 
+// An issuer that fails - and, as Go functions may, returns a non-empty value next to its error.
 func (f failingIssuer) Evaluate(req tokens.TokenRequest) ([]byte, error) {
-	return nil, fmt.Errorf("issuer unavailable")
+	return []byte("partial result that must be ignored"), fmt.Errorf("issuer unavailable")
 }
 func (f failingIssuer) TokenKeyID() []byte { return f.id }
 func (f failingIssuer) Type() uint16       { return f.t }
@@ -77,6 +78,8 @@ func execBatch(c *ctx, in ev) []ev {
 			issuers = []batched.Issuer{batchIssuer1{iss1}, batchIssuer1{type1.NewBasicPrivateIssuer(k1c)}}
 		case "samecollide2":
 			issuers = []batched.Issuer{batchIssuer1{type1.NewBasicPrivateIssuer(k1c)}, batchIssuer1{iss1}, batchIssuer2{iss2}}
+		case "onlyfails":
+			issuers = []batched.Issuer{failingIssuer{1, id1}, batchIssuer2{iss2}}
 		case "none":
 		}
 		unknown := byte(0)
@@ -192,7 +195,7 @@ func genBatch(c *ctx, emit func(ev)) {
 	// longer seeded sequences
 	r := newRand(c.seed, "batch-long")
 	kinds := []string{"1ok", "1unk", "1bad", "2ok", "2unk", "2bad", "1okB", "1okC"}
-	cfgs := []string{"both", "t1only", "t2only", "firstfails", "none", "crosscollide", "samecollide", "samecollide2"}
+	cfgs := []string{"both", "t1only", "t2only", "firstfails", "none", "crosscollide", "samecollide", "samecollide2", "onlyfails"}
 	for i := 0; i < c.tierInt(20, 200); i++ {
 		n := 5 + r.Intn(8)
 		rs := []any{}
@@ -200,6 +203,24 @@ func genBatch(c *ctx, emit func(ev)) {
 			rs = append(rs, kinds[r.Intn(len(kinds))])
 		}
 		emit(ev{"op": "Batch", "bid": 100000 + i, "cfg": cfgs[r.Intn(len(cfgs))], "reqs": rs, "wire": i%2 == 0})
+	}
+	// large batches: the response list of 260 type-2 entries is longer than 65535 bytes (and its length prefix a
+	// four-byte varint); some requests of other kinds in between
+	for i, n := range []int{64, 260, c.tierFixed(270, 700)} {
+		rs := []any{}
+		for k := 0; k < n; k++ {
+			switch {
+			case k%97 == 13:
+				rs = append(rs, "2unk")
+			case k%53 == 7:
+				rs = append(rs, "1ok")
+			case k%101 == 50:
+				rs = append(rs, "1bad")
+			default:
+				rs = append(rs, "2ok")
+			}
+		}
+		emit(ev{"op": "Batch", "bid": 200000 + i, "cfg": "both", "reqs": rs, "wire": i%2 == 0})
 	}
 }
 
